@@ -407,7 +407,8 @@ def random_method(rng, idx, allow_view=True):
     # defaults suffix-closed among PK
     if params and rng.random() < 0.4:
         params[-1][3] = True
-    m = {'name': f'm{idx}' if rng.random() < 0.7 else f'ns.meth{idx}', 'params': params, 'ret': rng.choice(specworld.RETURNS),
+    m = {'name': rng.choice([f'm{idx}', f'm{idx}', f'm{idx}', f'ns.meth{idx}', f'rpc.meth{idx}', f'rpc.discover{idx or ""}']),
+         'params': params, 'ret': rng.choice(specworld.RETURNS),
          'ctx': 'ctx' if rng.random() < 0.25 else None}
     if rng.random() < 0.55:
         m['doc'] = {'params': rng.choice([True, True, 'bare', False]), 'returns': rng.choice([True, 'rtype', False]), 'raises': rng.sample(['A', 'B', 'C', 'abstract', 'client', 'unknown'], rng.choice([0, 0, 1, 2, 3])),
@@ -442,6 +443,8 @@ def random_method(rng, idx, allow_view=True):
         m['annotate'] = a
     if allow_view and rng.random() < 0.15:
         m['view'] = True
+    if rng.random() < 0.12:
+        m['pep702'] = True
     return m
 
 
@@ -489,6 +492,7 @@ def gen(ctx):
         [base('m0', doc={'raises': ['abstract', 'A'], 'params': True}), base('m1', doc={'raises': ['client', 'unknown'], 'returns': True})],
         [base('m0', doc={'params': 'bare', 'returns': 'rtype'}), base('m1', doc={'params': True, 'returns': 'rtype'})],
         [base('m0', doc={'params': 'bare'})],
+        [base('rpc.discover'), base('rpc.x', pep702=True), base('m2', pep702=True, annotate={'deprecated': False})],
         # names that differ only in their separators are different methods with their own components
         [dict(base('user.get'), params=[['user_id', 'PK', 'int', False]], ret='Thing'),
          dict(base('user_get'), params=[['name', 'PK', 'str', False], ['strict', 'KO', 'bool', True]], ret='List[Other]'),
